@@ -3,6 +3,19 @@
    to the list of actions it performs given the memo at entry (`expand`: dill's per-type
    behaviour is a parameter of every theorem); `Save child` is where the recursive pickler
    descends and where nrpickler defers.  Writes and memoised objects are ids.
+
+   Two modes, chosen per object when its turn comes in dump() (`_save_now`: the root, and every
+   deferred save that reaches the head of the queue; the queue is empty at that moment):
+     - deferred mode (`atomic x = false`, constructor D_s): realsave(x) runs ONE invocation of
+       dill's save(); the children it meets are deferred (`IS child` appended to the queue), and
+       once something is queued the writes and memoisations that follow are queued behind it;
+     - atomic mode (`atomic x = true`, constructor D_a; classes and functions in the code:
+       `_recursing` is raised around realsave): x and its WHOLE subtree are saved the recursive
+       way, `RunA (expand m x)`: save() does not defer while `_recursing`, the queue is empty, so
+       every write goes straight to the stream and every memoisation happens at once, and
+       nothing is queued.
+   What lazy_act does with a `Save x` met inside a deferred-mode body does not depend on
+   `atomic x`: it is deferred either way; `atomic` only decides how it is saved when its turn comes.
    Model-side file: definitions only. *)
 From EG Require Import Base.
 
@@ -13,6 +26,8 @@ Definition put (idx : nat) : nat := 2 * idx + 1.                    (* the PUT /
 
 Section Pickler.
   Variable expand : list nat -> nat -> list action.
+  (* the objects _save_now saves the recursive way (isinstance(obj, (type, FunctionType))) *)
+  Variable atomic : nat -> bool.
 
   (* the recursive pickler (dill): a child is saved completely before the parent goes on *)
   Inductive RunA : list action -> list nat -> list nat -> list nat -> list nat -> Prop :=
@@ -34,13 +49,18 @@ Section Pickler.
   (* realsave(obj) called from dump(): the queue is empty at that moment *)
   Definition realsave (x : nat) (m o : list nat) : lstate := fold_left lazy_act (expand m x) ([], m, o).
 
-  (* dump()'s drain loop ("extend with the tail and restart" and "continue" are the same step) *)
+  (* dump()'s drain loop ("extend with the tail and restart" and "continue" are the same step);
+     an `IS x` at the head is _save_now(x): deferred mode (D_s) or atomic mode (D_a) *)
   Inductive Drain : list item -> list nat -> list nat -> list nat -> list nat -> Prop :=
   | D_nil m o : Drain [] m o m o
   | D_w b q m o m' o' : Drain q m (o ++ [b]) m' o' -> Drain (IW b :: q) m o m' o'
   | D_m x q m o m' o' : Drain q (m ++ [x]) (o ++ [put (length m)]) m' o' -> Drain (IM x :: q) m o m' o'
   | D_s x q lz m o m1 o1 m' o' :
-      realsave x m o = (lz, m1, o1) -> Drain (lz ++ q) m1 o1 m' o' -> Drain (IS x :: q) m o m' o'.
+      atomic x = false ->
+      realsave x m o = (lz, m1, o1) -> Drain (lz ++ q) m1 o1 m' o' -> Drain (IS x :: q) m o m' o'
+  | D_a x q m o m1 o1 m' o' :
+      atomic x = true ->
+      RunA (expand m x) m o m1 o1 -> Drain q m1 o1 m' o' -> Drain (IS x :: q) m o m' o'.
 
   (* executable versions on fuel (None = out of fuel) *)
   Fixpoint runa_f (fuel : nat) (t : list action) (m o : list nat) : option (list nat * list nat) :=
@@ -61,14 +81,21 @@ Section Pickler.
       | [] => Some (m, o)
       | IW b :: r => drain_f f r m (o ++ [b])
       | IM x :: r => drain_f f r (m ++ [x]) (o ++ [put (length m)])
-      | IS x :: r => let '(lz, m1, o1) := realsave x m o in drain_f f (lz ++ r) m1 o1
+      | IS x :: r =>
+          if atomic x
+          then match runa_f f (expand m x) m o with
+               | Some (m1, o1) => drain_f f r m1 o1
+               | None => None
+               end
+          else let '(lz, m1, o1) := realsave x m o in drain_f f (lz ++ r) m1 o1
       end
     end.
-  (* nrpickler.dump(root): realsave(root) then the drain loop *)
+  (* nrpickler.dump(root): _save_now(root) then the drain loop, i.e. the drain loop from [IS root] *)
   Definition nr_dump (fuel : nat) (root : nat) : option (list nat * list nat) := drain_f fuel [IS root] [] [].
   Definition rec_dump (fuel : nat) (root : nat) : option (list nat * list nat) := runa_f fuel [Save root] [] [].
   (* maximal depth of pending Python frames: the recursive pickler nests one save() per Save on the
-     path; the scheduler's loop calls realsave at depth 1 only (structural: drain_f is tail-shaped) *)
+     path; the scheduler's loop calls realsave at depth 1 only (structural: drain_f is tail-shaped),
+     plus, in atomic mode, whatever the atomic subtree itself needs (runa_f) *)
 End Pickler.
 
 (* expand given as a finite table traced from a real run: ((length of the memo at entry, object), actions) *)
@@ -77,11 +104,13 @@ Definition table_expand (tbl : list ((nat * nat) * list action)) (m : list nat) 
   | Some e => snd e
   | None => []
   end.
-(* generated cases: the table traced from recursive dill, the root, the write stream and memo order
-   observed on the real _NonrecursivePickler *)
-Definition pcheck (c : list ((nat * nat) * list action) * nat * (list nat * list nat)) : bool :=
-  let '(tbl, root, (em, eo)) := c in
-  match nr_dump (table_expand tbl) (200 * 200) root, rec_dump (table_expand tbl) (200 * 200) root with
+(* generated cases: the table traced from recursive dill, the ids of the atomic objects (classes
+   and functions), the root, the write stream and memo order observed on the real
+   _NonrecursivePickler *)
+Definition pcheck (c : list ((nat * nat) * list action) * list nat * nat * (list nat * list nat)) : bool :=
+  let '(tbl, atoms, root, (em, eo)) := c in
+  match nr_dump (table_expand tbl) (fun x => existsb (Nat.eqb x) atoms) (200 * 200) root,
+        rec_dump (table_expand tbl) (200 * 200) root with
   | Some (m, o), Some (m2, o2) =>
       list_eqb Nat.eqb m em && list_eqb Nat.eqb o eo && list_eqb Nat.eqb m2 em && list_eqb Nat.eqb o2 eo
   | _, _ => false
@@ -89,9 +118,10 @@ Definition pcheck (c : list ((nat * nat) * list action) * nat * (list nat * list
 
 (* same comparison but naming no memoised object: streams and memo LENGTH (temporaries such as
    reduce tuples have no stable identity across two real runs) *)
-Definition pcheck2 (c : list ((nat * nat) * list action) * nat * (nat * list nat)) : bool :=
-  let '(tbl, root, (mlen, eo)) := c in
-  match nr_dump (table_expand tbl) (200 * 200) root, rec_dump (table_expand tbl) (200 * 200) root with
+Definition pcheck2 (c : list ((nat * nat) * list action) * list nat * nat * (nat * list nat)) : bool :=
+  let '(tbl, atoms, root, (mlen, eo)) := c in
+  match nr_dump (table_expand tbl) (fun x => existsb (Nat.eqb x) atoms) (200 * 200) root,
+        rec_dump (table_expand tbl) (200 * 200) root with
   | Some (m, o), Some (m2, o2) =>
       Nat.eqb (length m) mlen && list_eqb Nat.eqb o eo && Nat.eqb (length m2) mlen && list_eqb Nat.eqb o2 eo
   | _, _ => false
